@@ -67,20 +67,20 @@ theorem updateFileHashes_empty (s : KState) (cause : Cause) : s.updateFileHashes
 
 /-! ## Startup requests on a quiescent database -/
 
-/-- `rescan_env_vars`: when no attached step has a recorded value that differs from the current
-environment, nothing is marked pending and the database is unchanged. -/
+/-- `rescan_env_vars`: when no step, attached or detached, has a recorded value that differs from the
+current environment, nothing is marked pending and the database is unchanged. -/
 theorem rescanEnv_unchanged_identity (s : KState) (cfg : KConfig)
-    (h : ∀ n ∈ s.nodes, n.key.kind = .step → n.detached = false →
+    (h : ∀ n ∈ s.nodes, n.key.kind = .step →
       ∀ e ∈ n.envs, envValue cfg e.1 = e.2.1) :
     s.rescanEnvVars cfg = .ok s := by
   unfold KState.rescanEnvVars
   have hnil : (s.nodes.filter fun n =>
-      decide (n.key.kind = .step ∧ (!n.detached) = true ∧ (n.envs.any fun e => decide (envValue cfg e.1 ≠ e.2.1)) = true)) = [] := by
+      decide (n.key.kind = .step ∧ (n.envs.any fun e => decide (envValue cfg e.1 ≠ e.2.1)) = true)) = [] := by
     rw [List.filter_eq_nil_iff]
     intro n hn
-    simp only [decide_eq_true_eq, not_and, Bool.not_eq_true', List.any_eq_true, not_exists]
-    intro hk hd e he hne
-    exact hne (h n hn hk hd e he)
+    simp only [decide_eq_true_eq, not_and, List.any_eq_true, not_exists]
+    intro hk e he hne
+    exact hne (h n hn hk e he)
   simp only [hnil]
   rfl
 
@@ -201,7 +201,7 @@ flags. -/
 theorem noop_restart_identity (s s' : KState) (cfg : KConfig)
     (hr : ∀ n ∈ s.nodes, n.key.kind = .step → n.sstate ≠ .running ∧ n.sstate ≠ .checking)
     (hf : ∀ n ∈ s.nodes, n.key.kind = .step → n.sstate ≠ .failed)
-    (henv : ∀ n ∈ s.nodes, n.key.kind = .step → n.detached = false → ∀ e ∈ n.envs, envValue cfg e.1 = e.2.1)
+    (henv : ∀ n ∈ s.nodes, n.key.kind = .step → ∀ e ∈ n.envs, envValue cfg e.1 = e.2.1)
     (h : restartRequests s cfg = .ok s') : SameButAfter s s' := by
   unfold restartRequests at h
   rw [resetInterrupted_quiescent_identity s hr hf] at h
